@@ -145,6 +145,8 @@ pub struct Plan {
     pub wreg: usize,
     /// step over first byte / value in whole Comm-B frames
     pub commb_step: usize,
+    /// 1 = every case of the complete sweeps; n = every n-th (only under a process-level dimension, quick tier)
+    pub stride: usize,
     /// DF18 control fields swept with windows
     pub cfs: Vec<u8>,
     /// extra seed-derived backgrounds (non-deciding)
@@ -163,10 +165,18 @@ pub fn plan(ctx: &Ctx) -> Plan {
         }
         extra.push(b);
     }
+    if !ctx.plain() {
+        // a process-level dimension (logging on, statistics on): the same parts over smaller windows
+        // (thorough tier: the plain quick plan; quick tier: smaller windows and every 5th case of the complete sweeps (5 is coprime to every loop length, so each field still takes all its values))
+        if ctx.thorough() {
+            return Plan { w: 8, w18: 8, wreg: 12, commb_step: 8, cfs: vec![2], extra_bg: extra, joint_step: 8, thorough: false, stride: 1 };
+        }
+        return Plan { w: 5, w18: 5, wreg: 8, commb_step: 32, cfs: vec![2], extra_bg: extra, joint_step: 32, thorough: false, stride: 5 };
+    }
     if ctx.thorough() {
-        Plan { w: 14, w18: 10, wreg: 16, commb_step: 1, cfs: vec![0, 1, 2, 3, 4, 5, 6, 7], extra_bg: extra, joint_step: 1, thorough: true }
+        Plan { w: 14, w18: 10, wreg: 16, commb_step: 1, cfs: vec![0, 1, 2, 3, 4, 5, 6, 7], extra_bg: extra, joint_step: 1, thorough: true, stride: 1 }
     } else {
-        Plan { w: 8, w18: 8, wreg: 12, commb_step: 8, cfs: vec![2], extra_bg: extra, joint_step: 8, thorough: false }
+        Plan { w: 8, w18: 8, wreg: 12, commb_step: 8, cfs: vec![2], extra_bg: extra, joint_step: 8, thorough: false, stride: 1 }
     }
 }
 
@@ -200,7 +210,7 @@ pub fn sweep(ctx: &Ctx, rep: &Report, v: &dyn Visitor, want_registers: bool) -> 
     let hdr_bgs = [0u32, 0x3fff, 0x1555, 0x2aaa];
     for df in [0u8, 4, 5, 16, 20, 21] {
         par_ranges(ctx.threads, 1 << 14, 256, |lo, hi| {
-            for h in lo..hi {
+            for h in (lo..hi).filter(|h| *h as usize % p.stride == 0) {
                 for code in code_bgs {
                     let long = df & 0x10 != 0;
                     let mut f = vec![0u8; if long { 14 } else { 7 }];
@@ -213,7 +223,7 @@ pub fn sweep(ctx: &Ctx, rep: &Report, v: &dyn Visitor, want_registers: bool) -> 
             }
         });
         par_ranges(ctx.threads, 1 << 13, 256, |lo, hi| {
-            for code in lo..hi {
+            for code in (lo..hi).filter(|x| *x as usize % p.stride == 0) {
                 for h in hdr_bgs {
                     let long = df & 0x10 != 0;
                     let mut f = vec![0u8; if long { 14 } else { 7 }];
@@ -227,18 +237,17 @@ pub fn sweep(ctx: &Ctx, rep: &Report, v: &dyn Visitor, want_registers: bool) -> 
         });
     }
     // DF16: the 56-bit MV field (ACAS coordination / resolution messages), 8-bit windows at stride 4
-    par_ranges(ctx.threads, 13 * 2, 1, |lo, hi| {
+    let mv_bgs: Vec<[u8; 7]> = [[0u8; 7], [0xff; 7]].into_iter().chain(variant_backgrounds("bds30")).collect();
+    par_ranges(ctx.threads, 13 * mv_bgs.len() as u64, 1, |lo, hi| {
         for i in lo..hi {
-            let off = 32 + 4 * (i / 2) as usize;
-            let bg = if i % 2 == 0 { 0x00u8 } else { 0xff };
+            let off = 32 + 4 * (i / mv_bgs.len() as u64) as usize;
+            let bg = mv_bgs[(i % mv_bgs.len() as u64) as usize];
             for val in 0..256u64 {
                 for first in [0x30u8, 0x00, 0x31, 0xff] {
                     let mut f = vec![0u8; 14];
                     set_bits(&mut f, 0, 5, 16);
                     set_bits(&mut f, 19, 13, ac13_q(35000) as u64);
-                    for b in f[4..11].iter_mut() {
-                        *b = bg;
-                    }
+                    f[4..11].copy_from_slice(&bg);
                     f[4] = first;
                     set_bits(&mut f, off.min(80), 8, val);
                     seal(&mut f, addr);
@@ -289,7 +298,7 @@ pub fn sweep(ctx: &Ctx, rep: &Report, v: &dyn Visitor, want_registers: bool) -> 
                     for bg in &bgs[..if p.thorough { 2 } else { 1 }] {
                         let mut me = *bg;
                         me[0] = first as u8;
-                        for val in 0..256u64 {
+                        for val in (0..256u64).step_by(if p.stride > 1 { 2 * p.stride } else { 1 }) {
                             set_bits(&mut me, off, 8, val);
                             visit_frame(v, &c, "DF18:window8", &es(18, cf, addr, &me, 0));
                         }
@@ -321,7 +330,9 @@ pub fn sweep(ctx: &Ctx, rep: &Report, v: &dyn Visitor, want_registers: bool) -> 
     if want_registers {
         let roffs = offsets(0, 56, p.wreg);
         for name in REGISTERS {
-            let bgs: Vec<[u8; 7]> = vec![[0u8; 7], exemplar(name), status_background(name)];
+            let mut bgs: Vec<[u8; 7]> = vec![[0u8; 7], exemplar(name), status_background(name)];
+            // one background per layout variant (an enum selected by id bits in the middle of the register)
+            bgs.extend(variant_backgrounds(name));
             par_ranges(ctx.threads, roffs.len() as u64 * bgs.len() as u64, 1, |lo, hi| {
                 for i in lo..hi {
                     let off = roffs[(i as usize) / bgs.len()];
@@ -352,6 +363,9 @@ pub fn sweep(ctx: &Ctx, rep: &Report, v: &dyn Visitor, want_registers: bool) -> 
         // BDS 4,4: wind speed (st+9) x direction (9) with exemplar temperature; temperature (sign+10); humidity
         joint(ctx, 1 << 10, 1 << 9, step.min(4), |a, b| mb44(a, b, 0x5cf >> 1, 0, 0), "bds44", v, &c);
         joint(ctx, 1 << 11, 1 << 7, 1, |a, b| mb44(0x200 | 20, 100, a, 0, b), "bds44", v, &c);
+        // BDS 3,0 with threat type 2: range x bearing (every pair), altitude x bearing
+        joint(ctx, 1 << 7, 1 << 6, 1, |a, b| mb_bds30(2, ((ac13_q(35000) as u32) << 13) | (a << 6) | b), "bds30", v, &c);
+        joint(ctx, 1 << 13, 1 << 6, step, |a, b| mb_bds30(2, (a << 13) | (20 << 6) | b), "bds30", v, &c);
         // BDS 4,5: temperature field and the hazard levels
         joint(ctx, 1 << 16, 1, 1, |a, _| mb45(a), "bds45", v, &c);
         rep.part(
@@ -376,13 +390,20 @@ pub fn sweep(ctx: &Ctx, rep: &Report, v: &dyn Visitor, want_registers: bool) -> 
                             set_bits(&mut mb, off, 8, val);
                             visit_frame(v, &c, "commb:window8", &df20_21(df, 0, 0, 0, code, &mb, addr));
                         }
+                        // the other flight statuses (and a downlink request), on every other value
+                        for fs in 1..8u8 {
+                            for val in (0..256u64).step_by(step * 2) {
+                                set_bits(&mut mb, off, 8, val);
+                                visit_frame(v, &c, "commb:window8:fs", &df20_21(df, fs, (fs as u64 * 5) as u8 & 31, 0, code, &mb, addr));
+                            }
+                        }
                     }
                 }
             });
         }
     }
     // joint ADS-B domains that matter for ranges: velocity sign/magnitude pairs, headings, surface movement x track
-    let vstep = if p.thorough { 1 } else { 16 };
+    let vstep = if p.thorough { 1 } else { 16 * p.stride };
     for st in [1u8, 2] {
         par_ranges(ctx.threads, 2048 / vstep as u64, 8, |lo, hi| {
             for a in lo..hi {
@@ -502,12 +523,38 @@ pub fn sweep(ctx: &Ctx, rep: &Report, v: &dyn Visitor, want_registers: bool) -> 
         }
     }
     par_ranges(ctx.threads, batch.len() as u64, 256, |lo, hi| {
-        for (g, f) in &batch[lo as usize..hi as usize] {
+        for (i, (g, f)) in batch[lo as usize..hi as usize].iter().enumerate() {
+            if (lo as usize + i) % p.stride != 0 {
+                continue;
+            }
             visit_frame(v, &c, g, f);
         }
     });
     rep.part("joint and complete field sweeps", c.frames.load(Ordering::Relaxed), serde_json::json!({"accepted": c.accepted.load(Ordering::Relaxed)}));
     c
+}
+
+/// BDS 3,0 with an active RA and threat type `tti`; TID = altitude(13) range(7) bearing(6) when tti = 2
+pub fn mb_bds30(tti: u8, tid: u32) -> [u8; 7] {
+    let mut mb = [0u8; 7];
+    mb[0] = 0x30;
+    set_bits(&mut mb, 8, 14, 0x2040); // ARA: RA issued, corrective
+    set_bits(&mut mb, 28, 2, tti as u64);
+    set_bits(&mut mb, 30, 26, tid as u64);
+    mb
+}
+
+/// Backgrounds that select the other layout variants of a register (readers chosen by id bits)
+fn variant_backgrounds(name: &str) -> Vec<[u8; 7]> {
+    match name {
+        "bds30" => vec![
+            mb_bds30(1, 0x4840d6 << 2),
+            mb_bds30(2, ((ac13_q(35000) as u32) << 13) | (20 << 6) | 7),
+            mb_bds30(2, (1 << 26) - 1),
+            mb_bds30(3, 0x2aaaaaa),
+        ],
+        _ => vec![],
+    }
 }
 
 /// MB with every status bit set and reserved bits zero (so every reader is reached)
@@ -551,6 +598,29 @@ pub fn mb45(x: u32) -> [u8; 7] {
 
 fn joint<F: Fn(u32, u32) -> [u8; 7] + Sync>(ctx: &Ctx, na: u32, nb: u32, step: u32, build: F, name: &str, v: &dyn Visitor, c: &Counts) {
     let step = step.max(1);
+    // the same domain inside whole DF20 / DF21 replies under every flight status (the header is context for the
+    // register readers: alert / SPI / on-ground), on a grid four times coarser
+    let fstep = (step * 4).max(8);
+    let group = format!("commb:joint:{name}");
+    par_ranges(ctx.threads, (na / fstep).max(1) as u64, 4, |lo, hi| {
+        for a in lo..hi {
+            let a = a as u32 * fstep;
+            let mut bs: Vec<u32> = (0..nb).step_by(fstep as usize).collect();
+            bs.extend([nb - 1, nb / 2, (nb / 2).saturating_sub(1), 1.min(nb - 1)]);
+            bs.retain(|b| *b < nb);
+            bs.sort();
+            bs.dedup();
+            for b in bs {
+                for (x, y) in [(a, b), (b.min(na - 1), a.min(nb - 1))] {
+                    let mb = build(x, y);
+                    for fs in 0..8u8 {
+                        visit_frame(v, c, &group, &df20_21(20, fs, 0, 0, if fs & 1 == 1 && fs < 4 { ac13_q(0) } else { ac13_q(35000) }, &mb, 0x4840d6));
+                        visit_frame(v, c, &group, &df20_21(21, fs, 0, 0, id13(1, 2, 3, 4), &mb, 0x4840d6));
+                    }
+                }
+            }
+        }
+    });
     par_ranges(ctx.threads, (na / step) as u64, 8, |lo, hi| {
         for a in lo..hi {
             let a = a as u32 * step;
